@@ -139,6 +139,73 @@ def native_history(rep, cands):
     pass
 
 
+def stack_initialisation(rep, cands, timeout):
+    """'the result of an execution depends only on the loaded program, the helpers and the buffers, not on earlier executions': every byte of the
+    512-byte eBPF stack must be defined at entry.  Interpreter: the element of the stack allocation in the MIR prelude; JIT: the bytes written by
+    the emitted prologue (x86sym, every VM kind); Cranelift: stores into the stack slot in the entry block of the emitted IR."""
+    import re, interp, x86sym
+    from ref import insn
+    pr = obl.Prover(timeout, common.seed())
+    # interpreter
+    mir, key = common.load_mir('std'); tt = common.type_table()
+    I = interp.Interp(mir, tt, 2, True, timeout); elems = []
+    I.eng.stubs.insert(0, (re.compile(r'^(std|alloc)::vec::from_elem$'), lambda e, st, fr, callee, args, R: (elems.append(args[0]), NotImplemented)[1]))
+    try: I.prelude_paths()
+    except mirsym.Unsupported as e: pr.out['errors'].append(f'interpreter prelude: {e}')
+    pr.out['obligations'] += 1
+    if elems and all(isinstance(x, mirsym.V) and is_true(simplify(x.t == 0)) for x in elems): pr.out['discharged'] += 1
+    else: cands.append(dict(role='engine-state/interp/stack-not-initialised', detail=f'the interpreter stack is not allocated zero-filled: {elems}', model=None, friendly=True, engine='interp'))
+    # x86-64 JIT prologue
+    d = Driver.get('dev'); prog = insn(0xb7, 0) + insn(0x95)
+    for vm, fixed in (('mbuff', None), ('raw', None), ('nodata', None), ('fixed', (8, 24))):
+        r = d.request(dict(op='compile', vm=vm, prog=prog.hex(), engine='jit', helpers=[], fixed=list(fixed) if fixed else None))
+        if r.get('status') != 'ok': pr.out['errors'].append(f'stack-init {vm}: compile {r.get("status")}'); continue
+        code = bytes.fromhex(r['code']); locs = r['pc_locs']
+        X = x86sym.X86(code, timeout); st = x86sym.fresh_state(); X0 = dict(st.r); X.rsp0 = X0['rsp']; st.ip = 0
+        st.pc = [UGE(X0['rsp'], 1 << 21), ULE(X0['rsp'], 1 << 62), Or(ULE(X0['rdi'] + X0['rsi'], X0['rsp'] - 8192), UGE(X0['rdi'], X0['rsp'] + 4096)), ULE(X0['r8'], 1 << 40), ULE(X0['r9'], 1 << 40), ULE(X0['rdi'], 1 << 62), ULE(X0['rsi'], 1 << 41)]
+        try: xs = X.run(st, {locs[0]})
+        except x86sym.Undecodable as e:
+            pr.out['errors'].append(f'stack-init {vm}: {e}'); continue
+        for s_ in xs:
+            pr.out['obligations'] += 1
+            rid, c_rbp = x86sym.split_addr(simplify(s_.r['rbp'])); rid0, c0 = x86sym.split_addr(X0['rsp'])
+            if rid != rid0: pr.out['errors'].append(f'stack-init {vm}: r10 is not at a constant distance from the entry RSP'); continue
+            top = (c_rbp - c0) % (1 << 64)
+            missing = [k for k in range(1, 513) if ((top - k) % (1 << 64)) not in s_.mem.stk]
+            if not missing: pr.out['discharged'] += 1
+            else: cands.append(dict(role='engine-state/jit/stack-not-initialised', detail=f'x86-64 JIT ({vm} VM): the prologue leaves {len(missing)} of the 512 bytes below r10 unwritten - a program that reads its stack before writing it sees whatever the native stack held (earlier executions, native pointers), the interpreter gives 0', model=None, friendly=True, engine='jit'))
+        pr.out['programs'] += 1
+    # Cranelift entry block
+    try:
+        dc = Driver.get('dev', features=('std', 'cranelift'))
+        r = dc.request(dict(op='compile', vm='mbuff', prog=prog.hex(), engine='cranelift', helpers=[]))
+        if r.get('status') == 'ok':
+            pr.out['obligations'] += 1
+            entry = r['clif'].split('block0', 1)[1].split('\nblock', 1)[0] if 'block0' in r['clif'] else ''
+            entry = re.split(r'\n\s*block\d+[:(]', r['clif'].split('block0', 1)[1])[0] if 'block0' in r['clif'] else ''
+            nst = len(re.findall(r'\b(stack_store|store)\b', entry))
+            if nst >= 64 or 'call' in entry: pr.out['discharged'] += 1
+            else: cands.append(dict(role='engine-state/cranelift/stack-not-initialised', detail=f'Cranelift: the entry block of the emitted IR stores nothing into the 512-byte stack slot ({nst} stores) - unwritten stack bytes are whatever the native stack held, the interpreter gives 0', model=None, friendly=True, engine='cranelift'))
+        else: pr.out['errors'].append(f'stack-init cranelift: compile {r.get("status")}')
+    except Exception as e: pr.out['errors'].append(f'stack-init cranelift: {e}')
+    rep.merge_counts(pr.out)
+
+
+def replay_stack_init(c):
+    """natively: a program that returns a stack slot it never wrote, run before and after a program that fills its stack; the interpreter returns 0 every time"""
+    from ref import insn
+    eng = c.get('engine'); d = Driver.get('dev', features=('std', 'cranelift'))
+    R = insn(0x79, 0, 10, -8) + insn(0x95)
+    W = b''.join(insn(0x7a, 10, 0, -8 * k, 0x1234) for k in range(1, 65)) + insn(0xb7, 0) + insn(0x95)
+    outs = []
+    for p in (R, W, R, R):
+        r = d.run(p, vm='nodata', engine=eng, isolate=False); outs.append((r.get('status'), r.get('value')))
+    ref_ = [d.run(p, vm='nodata', engine='interp', isolate=False).get('value') for p in (R, W, R, R)]
+    c['replay'] = dict(engine=eng, reader=R.hex(), results=outs, interpreter=ref_)
+    bad = [o for o, w in zip(outs, ref_) if o[0] == 'ok' and o[1] != w]
+    return (len(bad) > 0), f'{eng}: reader returns {[hex(o[1]) if o[1] is not None else o[0] for o in outs]}, the interpreter {ref_}'
+
+
 def run():
     rep = Report('C10', 'model_checking', '5/C10')
     timeout = 20000 if common.tier() == 'quick' else 120000
@@ -150,12 +217,14 @@ def run():
             for meth in meths: check_method(rep, cands, pr, mir, tt, vm, meth, feature, timeout)
         rep.merge_counts(pr.out)
     interp_none(rep, cands, timeout)
+    stack_initialisation(rep, cands, timeout)
     rep.assumptions += ['one API call from an arbitrary VM state (`self` symbolic, fields materialised lazily with the types printed in the MIR): histories of any length follow by induction',
                         'stubs: (self.verifier)(p) and verifier::check(p) -> arbitrary verdict recorded with its argument; stack_validate -> arbitrary Result; JitMemory::new / compile_function -> arbitrary Result tagged with their arguments; engines -> uninterpreted results of exactly their arguments',
                         'HashMap/HashSet operations (register_helper, register_allowed_memory) are opaque container updates',
                         'EbpfVm*::new is covered through set_program\'s obligations only where it shares code; construction-time verification is exercised by C06\'s replay through EbpfVm*::new']
     rep.bounds = dict(history_length='unbounded (inductive step)', vm_kinds=4, methods='set_program, set_verifier, jit_compile, cranelift_compile, execute_program, execute_program_jit, execute_program_cranelift')
     def rp(c):
+        if c['role'].startswith('engine-state/'): return replay_stack_init(c)
         return replay_history(c)
     return rep.finish(cands, rp)
 
